@@ -83,7 +83,38 @@ def main():
     need([a.arg for a in g.args.args] == ["table", "target_length", "check_for_aliases"] and len(g.args.defaults) == 1,
          "remove_default_routes.minimise(table, target_length, check_for_aliases=<default>)")
     check_default = boolconst(g.args.defaults[0], "default of check_for_aliases")
+    # ---- inventory of the classes whose instances the conversion takes (no pickle / copy / comparison hooks)
+    def members(path, cname):
+        import warnings
+        with warnings.catch_warnings():
+            warnings.simplefilter("ignore")
+            tree = ast.parse(open(os.path.join(REPO, path)).read())
+        for n in tree.body:
+            if isinstance(n, ast.ClassDef) and n.name == cname:
+                need([U(x) for x in n.bases] == ["object"], "%s(object): bases are %r" % (cname, [U(x) for x in n.bases]))
+                names = []
+                for m in n.body:
+                    if isinstance(m, ast.FunctionDef):
+                        names.append(m.name + "".join("@" + U(d) for d in m.decorator_list))
+                    elif isinstance(m, ast.Assign):
+                        names.append(U(m))
+                    elif not (isinstance(m, ast.Expr) and isinstance(m.value, ast.Constant)):
+                        need(False, "%s: unexpected class member %s" % (cname, U(m)[:80]))
+                return names
+        raise Unsupported("%s: class %s not found" % (path, cname))
+    rt_members = members("rig/place_and_route/routing_tree.py", "RoutingTree")
+    need(rt_members == ["__slots__ = ['_chip_x', '_chip_y', 'children']", "__init__", "chip@property",
+                        "chip@chip.setter", "__iter__", "__repr__", "traverse"],
+         "RoutingTree: the members are no longer __slots__, __init__, chip (property), __iter__, __repr__, traverse "
+         "(copying, pickling, comparing and hashing are the object defaults): %r" % rt_members)
+    net_members = members("rig/netlist.py", "Net")
+    need(net_members == ["__init__", "__contains__", "__iter__"],
+         "Net: the members are no longer __init__, __contains__, __iter__ (nets compare and hash by identity): %r"
+         % net_members)
     out = [D.HEADER % "dump_c10w.py",
+           "(* inventory: RoutingTree has members %s; Net has members %s -- no __eq__/__hash__/__getstate__/"
+           "__setstate__/__reduce__/__copy__/__deepcopy__ (checked, fail closed) *)"
+           % (", ".join(m.split(" =")[0] for m in rt_members), ", ".join(net_members)),
            "(* rig/place_and_route/utils.py : build_routing_tables, line %d -- shape checked (see tools/dump_c10w.py) *)" % f.lineno,
            D.definition("brt_omit_default_routes_default", "bool", "true" if omit_default else "false"),
            "(* the per-chip step: `if omit_default_routes: table = remove_default_routes.minimise(table, "
@@ -99,8 +130,8 @@ if __name__ == "__main__":
     try:
         main()
     except Unsupported as e:            # fail closed, with one clean line for the obligation's detail
-        sys.stdout.write("Unsupported: %s\n" % e)
+        sys.stderr.write("Unsupported: %s\n" % e)
         sys.exit(2)
     except Exception as e:         # anything unforeseen is also a refusal, never a silent pass
-        sys.stdout.write("Unsupported: %s: %s\n" % (type(e).__name__, e))
+        sys.stderr.write("Unsupported: %s: %s\n" % (type(e).__name__, e))
         sys.exit(2)
